@@ -26,15 +26,15 @@ CLAIMED = {
     ),
     "C04": dict(
         category="other",
-        text="Structural necessary conditions of the store/fetch round trip: length prefix and data block are the same converted value in every store variant; caller-supplied key collections traversed once or materialised; the fetch path maps the prefixed wire key back to the caller's key object and deserialises with that key, that line's bytes and flags, returning the found item itself; store results keyed by the caller's key; every key-addressed command uses self.key_prefix. Bit-for-bit equality, value sizes and serializer round trips (C15) are not decided.",
-        note="Trusted: CPython ast; wire-fragment transformers.",
-        technique="def-use and fragment-coupling rules over the store/fetch paths",
+        text="Necessary conditions of the store/fetch round trip: length prefix and data block are the same converted value in every store variant; every public retrieval and storage method of Client is interpreted end to end on exact key collections against scripted protocol replies and must hand back, under the caller's own key object, deserialize(that key, the data block of that key's VALUE line, its flags) [and its cas token], a falsy value as is, also when the keys arrive as a one-shot iterator or the reply lists them in another order; every key-addressed command uses self.key_prefix; serializer tables as in C15. Bit-for-bit equality, value sizes and round trips against a server model are not decided.",
+        note="Trusted: CPython ast; wire-fragment transformers; path interpreter with exact collections (pmcsa/colls.py); reply scripts in pmcsa/spec.py.",
+        technique="fragment-coupling rules + end-to-end abstract interpretation of the public methods against scripted replies",
     ),
     "C05": dict(
         category="other",
-        text="Reply tables equal the protocol/contract tables and are exhaustive; each method sends its documented verb, requests cas tokens exactly in the gets family and validates replies under that verb; the code after the exchange of delete/touch/flush_all/incr/decr/version is evaluated on every reply token of the verb's alphabet and must return the documented value; noreply constants, defaults and the resolution of None to default_noreply are decided. Everything over histories (cas races, expiry, equivalence with a map model) is not decided.",
+        text="Reply tables equal the protocol/contract tables and are exhaustive; each method sends its documented verb, requests cas tokens exactly in the gets family and validates replies under that verb; every public method is interpreted end to end (exchange functions and helpers inlined, exact key collections, scripted reply lines) and must return the documented value for every reply of its verb's alphabet (storage, retrieval and misc families; per-key results for 0/1/2 keys), raise the documented exception for error lines at the first and at a later reply position and for lines outside the alphabet, and return the documented constant with noreply; defaults and the resolution of None to default_noreply are decided. Everything over histories (cas races, expiry, equivalence with a map model) is not decided.",
         note="Trusted: CPython ast; path interpreter; wire evaluator; tables in pmcsa/spec.py.",
-        technique="table conformance + finite abstract evaluation of reply -> return decisions",
+        technique="table conformance + end-to-end abstract interpretation of reply -> return decisions on exact collections",
     ),
     "C03": dict(
         category="other",
@@ -92,13 +92,13 @@ CLAIMED = {
     ),
     "C01": dict(
         category="other",
-        text="Path and structure rules that are necessary conditions of reply ownership: close-before-escape on every ordinary-exception exit after sendall, noreply <=> no read coupled with the wire token at all 17 call sites, one reply per command in order, no receive state outside locals, only Client touches sockets. Parsing under all segmentations is C03; a misbehaving server is not decided.",
+        text="Path and structure rules that are necessary conditions of reply ownership: close-before-escape on every ordinary-exception exit after sendall, noreply <=> no read coupled with the wire token at all 17 call sites; every public method, interpreted end to end against the reply the protocol defines for its own commands (0/1/2 keys, lists and one-shot iterators), returns only after the last item of that reply, never asks for more, and reads nothing with noreply; no receive state outside locals, only Client touches sockets. Parsing under all segmentations is C03; a misbehaving server is not decided.",
         note="Trusted: CPython ast; path interpreter; wire-fragment evaluator; Client.close does not raise (decided by C06.R6).",
-        technique="must-pass-through on exception edges + abstract wire-fragment evaluation + who-may-call",
+        technique="must-pass-through on exception edges + abstract wire-fragment evaluation + end-to-end reply-consumption evaluation + who-may-call",
     ),
     "C07": dict(
         category="other",
-        text="For each of the 6 read methods on Client, PooledClient and HashClient the failure value is compared as a term with the miss value of Client's method, and a path analysis shows that with ignore_exc no ordinary exception from a failure-capable call (socket, reader, _raise_errors, serde; computed by call-graph fixpoint) can escape. Bookkeeping exceptions inside HashClient's failover handlers are left to C13.",
+        text="For each of the 6 read methods on Client, PooledClient and HashClient the failure value is compared as a term with the miss value of Client's method, and a path analysis shows that with ignore_exc no ordinary exception from a failure-capable call (socket, reader, _raise_errors, serde; computed by call-graph fixpoint) can escape; Client's six read methods are in addition interpreted end to end with ignore_exc set against 17 fault plans each (refused connection, failed send, time-out, close and error/garbage/malformed lines at every reply position, undeserialisable item) and must return their miss value. Bookkeeping exceptions inside HashClient's failover handlers are left to C13.",
         note="Trusted: CPython ast; path interpreter; term comparison; input-validation errors are not failures.",
         technique="sibling conformance of failure/miss terms + exception-escape path analysis",
     ),
